@@ -12,6 +12,7 @@ The history-level statements carry the well-scopedness hypothesis of `run_inv`
 Not modelled: allocation failure; the byte-size (`Layout`) overflow check inside
 `DataPtr::grow` (unreachable below 2^24 entries for component types of realistic size).
 -/
+import Gecs.Lemmas.CheckSound
 import Gecs.Lemmas.HistoryLemmas
 import Gecs.Lemmas.QueryOps
 import Gecs.Lemmas.GenTie
@@ -21,6 +22,7 @@ import Gecs.Lemmas.GenTie
 -- OBLIGATIONS: Gecs.C12_create_at_limit_panics_cleanly Gecs.C12_refill_after_any_history
 -- OBLIGATIONS: Gecs.C12_code_growth_admissible Gecs.C12_len_step_exact
 -- OBLIGATIONS: Gecs.gen_max_capacity Gecs.gen_growth_strict Gecs.gen_slot_encoding_sound
+-- OBLIGATIONS: Gecs.invCheck_iff
 
 namespace Gecs
 variable {α : Type}
